@@ -210,6 +210,8 @@ func checkC14(c *Ctx) {
 	}
 
 	checkVersionRangeTable(c)
+	checkCounterWriters(c)
+	checkLastSavedIsFinal(c)
 	c.rule("PASS-root-record", "existence and identity of a version come from its stored root record, not from the node cache", 2)
 	checkRootRecord(c, "PASS-root-record")
 	// the range is re-discovered from storage after a reopen: a failed probe must be an error, not "absent"
@@ -523,4 +525,90 @@ func checkRootRecord(c *Ctx, rule string) {
 		pos = l.ipos(bad)
 	}
 	c.decide(rule, "GetRoot reads the root record from storage", pos, ok, "every success return passes db.Get", "GetRoot can answer without reading the root record (e.g. because a node with the root's key is cached): after a rollback that re-commits the version without writes, the erased root is served")
+}
+
+// checkCounterWriters: the cached version counters of nodeDB are written only
+// by their reset functions (and nodeDB.DeleteVersionsFrom's forced legacy
+// reset); everything else goes through those — whose call sites the ORDER
+// rules place after the commit.  A helper that updates a counter "to keep it
+// in step" publishes a version number before it is committed.
+func checkCounterWriters(c *Ctx) {
+	l := c.L
+	const R = "OWN-version-counters"
+	c.rule(R, "cached version counters are written only by their reset functions", 3)
+	owners := map[string]map[string]bool{
+		"latestVersion":       {"(*iavl.nodeDB).resetLatestVersion": true},
+		"firstVersion":        {"(*iavl.nodeDB).resetFirstVersion": true},
+		"legacyLatestVersion": {"(*iavl.nodeDB).resetLegacyLatestVersion": true, "(*iavl.nodeDB).DeleteVersionsFrom": true},
+	}
+	n := 0
+	for fname, allowed := range owners {
+		f := l.Field("", "nodeDB", fname)
+		if f == nil {
+			c.anchorMissing(R, "nodeDB."+fname)
+			continue
+		}
+		for _, fn := range l.SrcFuncs {
+			if l.pkgPathOf(fn) != l.ModPath {
+				continue
+			}
+			for _, st := range storesToField(fn, f) {
+				// struct literal initialisation in the constructor
+				if _, isAl := stripTrivial(st.Addr.(*ssa.FieldAddr).X).(*ssa.Alloc); isAl {
+					continue
+				}
+				n++
+				c.decide(R, l.fname(fn)+" writes nodeDB."+fname, l.ipos(st), allowed[l.fname(fn)], "owner of the counter",
+					"nodeDB."+fname+" is written outside its reset function: a version number can become visible (VersionExists, AvailableVersions, GetLatestVersion) without the ordering the callers of the reset function are checked for — e.g. before the commit that may still fail")
+			}
+		}
+	}
+	if n < 3 {
+		c.anchorMissing(R, "fewer than 3 counter writes")
+	}
+}
+
+// checkLastSavedIsFinal: lastSaved is a snapshot of the tree as committed.
+// In every function that assigns it from clone(), no field of the working
+// tree (version, root) is written between that clone() call and the return —
+// otherwise lastSaved carries the old version number or root, and Rollback()
+// throws the handle back to it.
+func checkLastSavedIsFinal(c *Ctx) {
+	l := c.L
+	const R = "ORDER-last-saved-final"
+	c.rule(R, "lastSaved is cloned from the final committed tree (nothing of the working tree is written after the clone)", 2)
+	fLast := l.Field("", "MutableTree", "lastSaved")
+	fVer := l.Field("", "ImmutableTree", "version")
+	fRoot := l.Field("", "ImmutableTree", "root")
+	cloneM := l.Func("", "*ImmutableTree.clone")
+	if fLast == nil || fVer == nil || fRoot == nil || cloneM == nil {
+		c.anchorMissing(R, "lastSaved / ImmutableTree.version / root / clone")
+		return
+	}
+	n := 0
+	for _, fn := range l.SrcFuncs {
+		if l.pkgPathOf(fn) != l.ModPath {
+			continue
+		}
+		for _, st := range storesToField(fn, fLast) {
+			call, ok := stripTrivial(st.Val).(*ssa.Call)
+			if !ok || !predStatic(cloneM)(&call.Call) {
+				continue
+			}
+			// only clones of the receiver's own working tree (SaveVersion); a clone of a freshly loaded tree is final by construction
+			if r := roleOf(l, call.Call.Args[0], "", 0); !strings.HasPrefix(r, "recv") {
+				continue
+			}
+			n++
+			later := reachableAfter(call, func(x ssa.Instruction) bool { return isStoreToField(x, fVer, fRoot) }, nil)
+			msg := ""
+			if len(later) > 0 {
+				msg = "after lastSaved was cloned, " + describe(l, later[0]) + " at " + l.ipos(later[0]) + " still changes the working tree: lastSaved keeps the previous version number / root, and a Rollback() returns the handle to it (the next commit re-uses the version number)"
+			}
+			c.decide(R, l.fname(fn)+" clones lastSaved from the final tree", l.ipos(st), len(later) == 0, "no write of version / root after the clone", msg)
+		}
+	}
+	if n < 2 {
+		c.anchorMissing(R, "fewer than 2 lastSaved = clone() assignments")
+	}
 }
